@@ -15,7 +15,7 @@ RULE = ("Objects created with dyadic scale s=k/2^j (k in +-{1,2,3,5,7,...}, int 
 ASSUMPTIONS = ['core-domain formats with n_word<=16', 'cases whose float pre-transform would not be exact are replaced by construction (low bits dropped), never filtered']
 EXHAUSTIVE = False
 REQUIRED_CLASSES = {'nontrivial': 2000, 'negative-scale': 500, 'tie': 300, 'overflow': 300, 'infer': 300, 'array': 300,
-                    'carrier:list-int': 200, 'carrier:int': 200, 'carrier:np-int': 200}
+                    'carrier:list-int': 200, 'carrier:int': 200, 'carrier:np-int': 200, 'carrier:np-narrow': 200}
 
 SCALES = [(1, 0), (2, 0), (3, 0), (5, 0), (7, 0), (1, 1), (3, 1), (1, 2), (3, 2), (5, 3), (1, 4), (10, 0), (-1, 0), (-2, 0), (-3, 1), (-1, 2), (-5, 2), (100, 0), (25, 3)]
 
@@ -63,12 +63,18 @@ def check_affine(ctx, case):
     vs = [u * s + b for u in us]
     sig = 'affine/%s/%s/%s' % (route, shape, carrier)
     sc, bi = num(s, case['scale_float']), num(b, case['bias_float'])
+    if case.get('bias_np32') and isinstance(bi, float) and float(np.float32(bi)) == bi:
+        bi = np.float32(bi)         # a numpy floating scalar as bias
     lo, hi = M.rng(sg, w)
 
     def do():
         kw = dict(rounding=mode[0], overflow=mode[1], scale=sc, bias=bi)
         if carrier == 'float':
             obj = float(vs[0]) if shape == 'scalar' else np.array([float(v) for v in vs])
+        elif carrier == 'np-narrow':
+            t = next((t for t in (np.int8, np.uint8, np.int16, np.uint16, np.int32, np.uint32)
+                      if all(np.iinfo(t).min <= int(v) <= np.iinfo(t).max for v in vs)), np.int64)
+            obj = t(int(vs[0])) if shape == 'scalar' else np.array([int(v) for v in vs], dtype=t)
         elif shape == 'scalar':
             obj = int(vs[0]) if carrier != 'np-int' else np.int64(int(vs[0]))
         elif carrier == 'list-int':
@@ -225,7 +231,8 @@ def st_case(draw, infer=False):
     case = {'check': 'infer' if infer else 'affine', 'fmt': list(fmt), 'mode': list(draw(C.st_modes())), 'scale': list(sc), 'bias': list(bi),
             'x4s': x4s, 'route': draw(st.sampled_from(['ctor', 'call', 'set_val', 'setitem'])), 'shape': draw(st.sampled_from(['scalar', 'array'])),
             'scale_float': draw(st.booleans()), 'bias_float': draw(st.booleans()), 'signed': draw(st.sampled_from([None, True, False])),
-            'carrier': draw(st.sampled_from(['float', 'float', 'int', 'list-int', 'tuple-int', 'list-float', 'np-int']))}
+            'carrier': draw(st.sampled_from(['float', 'float', 'int', 'list-int', 'tuple-int', 'list-float', 'np-int', 'np-narrow'])),
+            'bias_np32': draw(st.booleans())}
     return case
 
 
